@@ -88,7 +88,8 @@ def project_part(part, with_ids=True, exclude=()):
         pts.append([tp.t, tp.quarter, None if tp.prev is None else tp.prev.t, None if tp.next is None else tp.next.t])
         tp = tp.next
     meta = {k: _prim(v) for k, v in sorted(vars(part).items())
-            if not k.startswith("__") and k not in ("_points", "_quarter_map", "parent") and (_prim(v) is not None or v is None)}
+            if (not k.startswith("_") or k == "_use_musical_beat") and k not in ("parent",)
+            and (_prim(v) is not None or v is None)}     # public attributes only (lazy caches like _number_of_staves are not content)
     return {"id": part.id, "meta": meta, "points": pts, "objects": objs,
             "qtab": [[int(a), int(b)] for a, b in part.quarter_durations()]}
 
